@@ -92,3 +92,30 @@ def domination(prop, tier, seed, timeout_ms, only=None, **_):
     u.monitor_violations = [{"message": v["what"], "property": prop, "detail": v} for v in res["violations"]]
     u.status = "failed" if res["violations"] else "held"
     return [u]
+
+
+def dump_resume(prop, tier, seed, timeout_ms, only=None, **_):
+    if only and "bounded" not in only:
+        return []
+    level = 1 if tier == "quick" else 4
+    t0 = time.time()
+    u = UnitResult("bounded:dump-resume", kind="bounded")
+    u.props = [prop]
+    u.model_name = "native"
+    res, err = _run("bounded.dump_resume", [level, seed])
+    u.seconds = time.time() - t0
+    if res is None:
+        u.status, u.detail = "crash", "bounded harness failed: %s" % err
+        return [u]
+    u.evaluations = res["evaluations"]
+    u.distinct = res["scheduler_clones"] + sum(s.get("dumps_resumed", 0) for s in res["samples"])
+    u.rule = ("(a) %d scheduler clones (dill) along seeded push/trash/get histories of both schedulers, each drained against its "
+              "original; (b) every resumed dump of 3 configurations (1 shipped with dumping, 2 with a harness-added dumping tagger) "
+              "compared commit by commit (hash of the full global state) with the uninterrupted run; distinct = clones + resumed dumps"
+              % res["scheduler_clones"])
+    u.samples = res["samples"]
+    u.detail = "BOUNDED: %d scheduler clones, %d resumed commits compared bit for bit (seed %d)" % (
+        res["scheduler_clones"], res["resumed_commits"], seed)
+    u.monitor_violations = [{"message": v["what"], "property": prop, "detail": v} for v in res["violations"]]
+    u.status = "failed" if res["violations"] else "held"
+    return [u]
